@@ -239,3 +239,32 @@ impl AbsHash {
         self.0 = crate::rng::fnv_bytes(self.0, s.as_bytes());
     }
 }
+
+/// Indices to try removing one at a time, last first; for very long lists (scale lanes) only a
+/// sample, so that the shrinker never materialises a quadratic number of large candidates.
+pub fn shrink_indices(n: usize) -> Vec<usize> {
+    if n <= 300 {
+        (0..n).rev().collect()
+    } else {
+        let step = n / 64;
+        (0..n).rev().step_by(step.max(1)).take(64).collect()
+    }
+}
+
+/// Contiguous chunks (start, end) to try removing from a long list.
+pub fn shrink_chunks(n: usize) -> Vec<(usize, usize)> {
+    if n <= 300 {
+        return vec![];
+    }
+    let mut v = vec![];
+    for parts in [2usize, 4, 16, 64] {
+        let sz = n / parts;
+        if sz == 0 {
+            continue;
+        }
+        for k in 0..parts {
+            v.push((k * sz, ((k + 1) * sz).min(n)));
+        }
+    }
+    v
+}
